@@ -208,9 +208,9 @@ func runSequence(t *testing.T, spec stackSpec, versions [2]uint, ops []op) (fail
 				_ = mock.Set(ctx, bk, []byte{0xff, 0xff, 0xff, 0xff, 0xff, 0x01, 0x02}, 30*time.Second)
 				poisoned = true
 				nontrivial = true
-			case "get", "getwitherror":
+			case "get", "getwitherror", "get-local-hit":
 				var res map[string][]byte
-				if o.Kind == "get" {
+				if o.Kind != "getwitherror" {
 					res = c.GetMulti(ctx, o.Keys)
 				} else {
 					var err error
@@ -279,7 +279,9 @@ func runSequence(t *testing.T, spec stackSpec, versions [2]uint, ops []op) (fail
 							}
 						}
 					}
-					if backendLive(e, now) {
+					if backendLive(e, now) && o.Kind != "get-local-hit" {
+						// (any read while the backend copy lives may have been a back-fill with the default TTL; the
+						// constructed read right after a write through the same stack cannot have been one)
 						e.reads = append(e.reads, now)
 					}
 				}
@@ -318,7 +320,7 @@ func genOps(rt *rapid.T, spec stackSpec) []op {
 	n := rapid.IntRange(1, 40).Draw(rt, "nops")
 	lastTTL := map[string]time.Duration{}
 	for i := 0; i < n; i++ {
-		o := op{Kind: rapid.SampledFrom([]string{"set", "set", "add", "get", "get", "getwitherror", "del", "adv", "adv", "setasync", "setmulti", "evict-and-straddle", "straddle"}).Draw(rt, "kind"),
+		o := op{Kind: rapid.SampledFrom([]string{"set", "set", "add", "get", "get", "getwitherror", "del", "adv", "adv", "setasync", "setmulti", "evict-and-straddle", "straddle", "mixed-read"}).Draw(rt, "kind"),
 			View: rapid.IntRange(0, 1).Draw(rt, "view")}
 		o.Keys = []string{rapid.SampledFrom(keyAlphabet).Draw(rt, "key")}
 		o.Val = genValue(rt, i)
@@ -351,6 +353,15 @@ func genOps(rt *rapid.T, spec stackSpec) []op {
 				op{Kind: "adv", Adv: spec.DefTTL - time.Second},
 				op{Kind: "get", View: o.View, Keys: []string{k}},
 				op{Kind: "adv", Adv: 600 * time.Millisecond},
+				op{Kind: "get", View: o.View, Keys: []string{k}})
+		case "mixed-read":
+			// constructed: a key just written through the stack (so it is certainly in the in-memory layer,
+			// with its own expiry) is read together with a key that is certainly absent there; the read must
+			// not prolong the first key's life: right after its own TTL it is gone
+			k := fmt.Sprintf("mixed%d", i)
+			ops = append(ops, op{Kind: "set", View: o.View, Keys: []string{k}, Val: o.Val, TTL: o.TTL},
+				op{Kind: "get-local-hit", View: o.View, Keys: []string{k, fmt.Sprintf("absent%d", i)}},
+				op{Kind: "adv", Adv: o.TTL},
 				op{Kind: "get", View: o.View, Keys: []string{k}})
 		case "straddle":
 			k := o.Keys[0]
